@@ -160,7 +160,15 @@ func (g *histGen) genPolicy(prev *PolicySpec) PolicySpec {
 		ng := 1 + r.Intn(2)
 		for k := 0; k < ng; k++ {
 			name := fmt.Sprintf("g%d", k)
-			switch r.Intn(5) {
+			kind := r.Intn(5)
+			if g.opts.fileRules && r.Chance(35) {
+				kind = 5 + r.Intn(2) // a global rule on a file namespace
+			}
+			switch kind {
+			case 5:
+				p.Root.GlobalRules = append(p.Root.GlobalRules, GlobalRuleSpec{Name: name, Kind: "threshold", Patterns: []string{"file:src/*"}, Threshold: 1 + r.Intn(2)})
+			case 6:
+				p.Root.GlobalRules = append(p.Root.GlobalRules, GlobalRuleSpec{Name: name, Kind: "threshold", Patterns: []string{"file:*"}, Threshold: 1})
 			case 0:
 				p.Root.GlobalRules = append(p.Root.GlobalRules, GlobalRuleSpec{Name: name, Kind: "threshold", Patterns: []string{"git:refs/heads/main"}, Threshold: 1 + r.Intn(2)})
 			case 1:
@@ -198,7 +206,12 @@ func (g *histGen) genPolicy(prev *PolicySpec) PolicySpec {
 	}
 	if g.opts.fileRules && r.Chance(70) {
 		fp := g.pickSubset(ids, 1, 2)
-		file.Rules = append(file.Rules, RuleSpec{Name: "protect-src", Patterns: []string{"file:src/*"}, Principals: fp, Threshold: 1})
+		pats := []string{"file:src/*"}
+		if r.Chance(35) {
+			// one rule for several directories: the paths of one commit then share a verifier
+			pats = [][]string{{"file:src/*", "file:docs/*"}, {"file:*"}}[r.Intn(2)]
+		}
+		file.Rules = append(file.Rules, RuleSpec{Name: "protect-src", Patterns: pats, Principals: fp, Threshold: 1})
 	}
 	p.Files = []RuleFileSpec{file}
 	if g.opts.delegation && r.Chance(50) {
